@@ -139,6 +139,13 @@ func genURLCase(rng *rand.Rand) *urlCase {
 			break
 		}
 	}
+	if rng.Intn(12) == 0 {
+		// bind names that look like the API's own keywords are ordinary bind names
+		renameOneBind(rt, []string{"withOptional", "capture", "route", "Route", "name"}[rng.Intn(5)])
+		if cat, judged := rmodel.New().Add(0, rt); cat != rmodel.RejNone || !judged {
+			rt = &rmodel.Route{Segs: []rmodel.Segment{{Elems: []rmodel.Elem{{Lit: "a"}}}, {Elems: []rmodel.Elem{{Params: []rmodel.Param{{Name: "unit", Value: "[0-9]+", IsRegex: true, Blanks: 1}, {Name: "capture", Value: "[a-z]+", IsRegex: true, Blanks: 1, Lead: 1}}}}}, {Optional: true, Elems: []rmodel.Elem{{Bind: "withOptional"}}}}}
+		}
+	}
 	c := &urlCase{Route: rt.Render(), Entry: []string{"router", "context", "leaf"}[rng.Intn(3)]}
 	binds := bindsOf(rt)
 	for _, b := range binds {
@@ -164,6 +171,25 @@ func genURLCase(rng *rand.Rand) *urlCase {
 		c.Pairs[2*i+1], c.Pairs[2*j+1] = c.Pairs[2*j+1], c.Pairs[2*i+1]
 	})
 	return c
+}
+
+// renameOneBind renames one bind of the route (a {bind} element or a regex parameter, preferably a non-first one).
+func renameOneBind(rt *rmodel.Route, name string) {
+	for si := len(rt.Segs) - 1; si >= 0; si-- {
+		es := rt.Segs[si].Elems
+		for ei := len(es) - 1; ei >= 0; ei-- {
+			if es[ei].IsBind() && es[ei].Bind != "**" {
+				es[ei].Bind = name
+				return
+			}
+			for pi := len(es[ei].Params) - 1; pi >= 0; pi-- {
+				if es[ei].Params[pi].IsRegex {
+					es[ei].Params[pi].Name = name
+					return
+				}
+			}
+		}
+	}
 }
 
 func judgeURL(w *core.W, c *urlCase) {
@@ -225,6 +251,12 @@ func judgeURL(w *core.W, c *urlCase) {
 		}()
 	}
 	w.Count("entry:" + c.Entry)
+	for _, b := range bindsOf(rt) {
+		if b == "withOptional" || b == "capture" || b == "route" {
+			w.Count("keyword-looking-bind-name")
+			break
+		}
+	}
 	if pan != nil {
 		w.Violate("url-panic", c, fmt.Sprintf("building the URL panicked: %v", pan))
 		return
@@ -464,7 +496,7 @@ func runC12(r *core.Run) {
 		judgeInverse(w, c)
 	})
 	r.Gate("distinct_nontrivial", r.NonTrivialCount(), 5000)
-	for _, k := range []string{"nt:value-looks-like-another-bind", "nt:bind-unsupplied", "nt:multi-parameter-list", "nt:optional-included", "nt:optional-excluded", "entry:router", "entry:context", "entry:leaf", "naming-refused", "unknown-name-refused", "inverse-checked"} {
+	for _, k := range []string{"nt:value-looks-like-another-bind", "nt:bind-unsupplied", "nt:multi-parameter-list", "nt:optional-included", "nt:optional-excluded", "entry:router", "entry:context", "entry:leaf", "naming-refused", "unknown-name-refused", "inverse-checked", "keyword-looking-bind-name"} {
 		r.GateCounter(k, 100)
 	}
 }
